@@ -71,7 +71,7 @@ MCP_TOOLS = {"mcp_allow": "mcp__srv__get_issue", "mcp_deny": "mcp__srv__delete",
 MCP_PATTERN = {"mcp_allow": "mcp__srv__get*", "mcp_deny": "mcp__srv__del*", "mcp_ask": "mcp__srv__put*"}
 MODES = ["claude", "gemini", "cursor", "flag-claude", "flag-gemini", "flag-cursor"]
 
-A_KINDS = ["ok", "fresh_home", "home_is_file", "dotdir_is_file", "log_is_dir", "devfull", "home_unset"]
+A_KINDS = ["ok", "fresh_home", "home_missing", "home_is_file", "dotdir_is_file", "log_is_dir", "devfull", "home_unset"]
 D_KINDS = ["none", "ok", "ok_full", "full_only", "seeded", "seeded_full", "missing_dir", "tilde", "parent_is_file",
            "path_is_dir", "devfull", "nul", "nosuchuser", "ok_then_nosuchuser", "loop", "toolong", "two_logs"]
 D_WORKING = {"ok", "ok_full", "seeded", "seeded_full", "missing_dir", "tilde", "ok_then_nosuchuser", "two_logs"}
@@ -123,6 +123,8 @@ def lay_out(sc, d):
         with open(home, "w") as f:
             f.write("")
         applog = None
+    elif a == "home_missing":
+        pass                 # HOME names a directory that does not exist yet: setup_logging creates it (mkdir parents)
     else:
         os.makedirs(home)
         if a == "ok":
@@ -168,7 +170,7 @@ def lay_out(sc, d):
         lines.append(f"set log {target}")
         events.append(["setlog", target])
     elif k == "tilde":
-        if a in ("ok", "fresh_home", "log_is_dir", "devfull", "dotdir_is_file"):
+        if a in ("ok", "fresh_home", "home_missing", "log_is_dir", "devfull", "dotdir_is_file"):
             target = os.path.join(home, "dl", "audit.log")
         lines.append("set log ~/dl/audit.log")
         events.append(["setlog", "~/dl/audit.log"])
@@ -471,7 +473,9 @@ def check_one(out, model, sc, res, base, xcheck):
     if sc["D"] not in D_WORKING or injected_dec or not info["target"]:
         # the destination is not a readable regular file: the model must say nothing was appended
         impl["declog"] = []
-    if res["applog"] is not None and sc["A"] in ("ok", "fresh_home"):
+    if sc["A"] == "home_missing" and res["applog"] is None:
+        res["applog"] = ""        # the model says the log is written: its absence must show as a difference
+    if res["applog"] is not None and sc["A"] in ("ok", "fresh_home", "home_missing"):
         impl["applog"] = LEVEL_RE.findall(res["applog"])
         mod["applog"] = list(m_applog)
     if impl != mod:
@@ -881,10 +885,12 @@ def run(tier, seed, replay=None):
             # systematic: every verdict class x every fault kind at the approvals sink x at the decision sink (claude)
             for cls in CLASSES:
                 for a in A_KINDS:
-                    if a == "home_unset" and cls not in ("allow", "deny", "mcp_allow", "bypass", "cfg_error", "bad_json"):
+                    if a in ("home_unset", "home_missing") and cls not in ("allow", "deny", "mcp_allow", "bypass", "cfg_error", "bad_json"):
                         continue
                     for dk in D_KINDS:
                         if a == "home_unset" and dk not in ("none", "ok_full", "devfull", "nul"):
+                            continue
+                        if a == "home_missing" and dk not in ("none", "ok_full", "devfull", "nul", "tilde"):
                             continue
                         scenarios.append({"cls": cls, "mode": "claude", "A": a, "D": dk})
             # every mode (auto-detected and by flag) x shell verdict classes x a cross of fault kinds
@@ -1008,7 +1014,7 @@ def run(tier, seed, replay=None):
         out.disagreements.append({"correspondence": "extracted OCaml model <-> vm_compute in Coq", "detail": mism[:5]})
     out.extra["rule"] = (
         "systematic: 15 verdict classes (allow/ask/deny/bypass/5 mcp/config error/not-shell/bad JSON/exception/2 PostToolUse) x "
-        "7 approvals-sink states (ok, fresh HOME, HOME is a file, ~/.claude is a file, log path is a directory, /dev/full, HOME unset) x "
+        "8 approvals-sink states (ok, fresh HOME, HOME not yet existing, HOME is a file, ~/.claude is a file, log path is a directory, /dev/full, HOME unset) x "
         "17 decision-sink states (none, ok, log-full, seeded, missing dir, ~, parent is a file, path is a directory, /dev/full, NUL, "
         "~nosuchuser, ok-then-~nosuchuser, symlink loop, name too long, two `set log`) in claude mode; a cross of these for the five other "
         "mode spellings; a config warning variant; injected failure of the k-th operation at each of the 7 sites with each exception "
